@@ -49,7 +49,7 @@ def load_units():
     for u in units.values():
         for f in u.fns():
             for c in f.clauses():
-                if "C20" in c.props and "C07" not in c.props and "counts" in c.text:
+                if "C20" in c.props and "C07" not in c.props and ("counts" in c.text or "state_inv" in c.text):
                     c.props = tuple(c.props) + ("C07",)
     return units
 
